@@ -50,6 +50,15 @@ def run(ctx):
                             from C19 import only_err_from
                             small = only_err_from(fn, tgt)
         ctx.ob('C14-D1', PCS, 'cur_size + PAD_OFFSET > end_size', 'returns Err(BoxSizeTooSmall)', small)
+        # D5: "too small" may only be concluded for a structure that carries no pad yet.  The padder re-enters itself after inserting a pad; if the
+        # size test runs before the pad entries are inspected, a re-entry whose padded size is 1-2 bytes short of (or over) the target fails with
+        # BoxSizeTooSmall although the reserve is ample (replay R9: reserve 1230 signs, 1231..1492 fail, 1493.. sign).
+        errb = [bi for bi, b in enumerate(fn.B) for dst, rv in b['s'] if rv['k'] == 'agg' and rv.get('variant') == 'BoxSizeTooSmall']
+        inspect = set(bi for bi, t in fn.calls() if 'unprotected.rest' in T.call_term(fn, bi) or re.search(r'PartialEq::eq$', t['fd']) and 'Label' in T.call_term(fn, bi))
+        if ctx.ob('C14-D5', PCS, 'Err(BoxSizeTooSmall)', 'constructed', bool(errb), nontrivial=False):
+            r = fn.reachable(0, avoid=inspect)
+            ctx.ob('C14-D5', PCS, 'Err(BoxSizeTooSmall)', 'concluded only after the pad entries were inspected (never on a re-entry that already carries a pad)', not any(b in r for b in errb),
+                   detail='the size test precedes the pad lookup: a re-entry with a pad present can fail although the reserve is ample', site=loc(fn.d['span']))
     if ctx.require(prog.has(PTS), PTS):
         fn = prog.fn(PTS)
         ctx.analysed(PTS, len(list(fn.calls())))
